@@ -183,7 +183,9 @@ func race(file string, quickS, fullS int) solveOut {
 		if r.result == "error" {
 			errs = append(errs, r.solver+": "+firstLines(r.output, 3))
 		}
-		if last.result == "" || r.result == "unknown" {
+		if last.result == "" || r.result == "unknown" || (last.result == "error" && r.result != "error") {
+			// an error of one solver (e.g. cvc5 rejecting arrays indexed by arrays) does not
+			// outweigh another solver's "unknown"/"timeout"
 			last = r
 		}
 	}
